@@ -188,7 +188,10 @@ class MonotoneBest(Facet):
         try:
             info = w.info
             minimize = case["minimize"]
-            problem = SingleObjectiveProblem(lambda p: float(hashlib.sha256(canon_str(canon(p, info)).encode()).digest()[0] % 13), minimize=minimize)
+            # (every third run on a tiny scale: fitness values far below any absolute epsilon)
+            scale = 1e-26 if case["seed"] % 3 == 1 else 1.0
+            rec.label("fitness-scale:" + str(scale))
+            problem = SingleObjectiveProblem(lambda p: scale * float(hashlib.sha256(canon_str(canon(p, info)).encode()).digest()[0] % 13), minimize=minimize)
             asked = []
 
             class CountingElitism(ElitismStep):
@@ -369,4 +372,75 @@ class ElitismBesideSiblings(Facet):
                 return
 
 
-FACETS = [ExhaustiveElitism(), GeneratedElitism(), MonotoneBest(), ElitismBesideSiblings()]
+class ElitismOnSynthesisedTrees(Facet):
+    """ElitismStep on populations of programs the library synthesised itself (trees of different
+    sizes and depths, carrying the library's node metadata), with fitness values on ordinary and on
+    tiny scales: ranking must go by fitness alone."""
+
+    name = "elitism_on_synthesised_trees"
+
+    def budget(self, tier):
+        return (100, 2) if tier == "quick" else (600, 8)
+
+    def strategy(self, tier):
+        return st.builds(
+            lambda seed, n, k, minimize, scale, mod: {"seed": seed, "n": n, "k": k, "minimize": minimize, "scale": scale, "mod": mod},
+            st.integers(0, 2**31),
+            st.integers(2, 14),
+            st.integers(1, 14),
+            st.booleans(),
+            st.sampled_from([1.0, 1.0, 1e-26, 1e-300, 1e12]),
+            st.sampled_from([3, 13, 251]),
+        )
+
+    def run(self, case, rec):
+        import hashlib
+
+        from geneticengine.algorithms.gp.operators.elitism import ElitismStep
+        from geneticengine.evaluation.sequential import SequentialEvaluator
+        from geneticengine.problems import SingleObjectiveProblem
+        from geneticengine.solutions.individual import Individual
+        from vk.refmodel import canon, canon_depth, canon_str
+
+        w = make_world(case["seed"])
+        try:
+            info = w.info
+            scale, mod, minimize = case["scale"], case["mod"], case["minimize"]
+
+            def raw(p):
+                return hashlib.sha256(canon_str(canon(p, info)).encode()).digest()[0] % mod
+
+            problem = SingleObjectiveProblem(lambda p: scale * float(raw(p)), minimize=minimize)
+            ev = SequentialEvaluator()
+            pop = [Individual(w.rep.create_genotype(w.random), w.rep) for _ in range(case["n"])]
+            k = 1 + (case["k"] - 1) % len(pop)
+            out = list(ElitismStep().apply(problem, ev, w.rep, w.random, list(pop), k, 1))
+            rec.label("fitness-scale:" + str(scale))
+            depths = {canon_depth(canon(i.get_phenotype(), info)) for i in pop}
+            vals = [raw(i.get_phenotype()) for i in pop]
+            if len(depths) >= 2 and len(set(vals)) >= 2 and k < len(pop):
+                rec.nontrivial((case["seed"], case["n"], k, minimize, scale, mod))
+            ids = [id(x) for x in pop]
+            for o in out:
+                if id(o) not in ids:
+                    rec.fail("C16/synthesised/elite-not-from-the-input", f"elitism returned an individual that is not in the input (seed {case['seed']})")
+                    return
+                ids.remove(id(o))
+            if len(out) != k:
+                rec.discard()  # size is C15's subject
+                return
+            rest = [x for x in pop if id(x) in ids]
+            key = (lambda x: -raw(x.get_phenotype())) if minimize else (lambda x: raw(x.get_phenotype()))
+            if rest and max(map(key, rest)) > min(map(key, out)):
+                b = max(rest, key=key)
+                wst = min(out, key=key)
+                rec.fail(
+                    f"C16/synthesised/excluded-strictly-better-than-included/{'minimize' if minimize else 'maximize'}",
+                    f"ElitismStep(k={k}) on {len(pop)} synthesised trees, fitness = {scale} * {[raw(i.get_phenotype()) for i in pop]} (minimize={minimize}): kept {canon_str(canon(wst.get_phenotype(), info))} "
+                    f"(fitness {scale * raw(wst.get_phenotype())}, depth {canon_depth(canon(wst.get_phenotype(), info))}) but left out {canon_str(canon(b.get_phenotype(), info))} (fitness {scale * raw(b.get_phenotype())}, depth {canon_depth(canon(b.get_phenotype(), info))})",
+                )
+        finally:
+            w.cleanup()
+
+
+FACETS = [ExhaustiveElitism(), GeneratedElitism(), MonotoneBest(), ElitismBesideSiblings(), ElitismOnSynthesisedTrees()]
